@@ -201,7 +201,7 @@ func verifyFuncMode(w *World, ss *SpecSet, fn *ssa.Function, sweep, finder bool)
 	e.stack = []*ssa.Function{fn}
 	for _, p := range fn.Params {
 		t := e.value(p)
-		e.inputs = append(e.inputs, modelVar{Name: p.Name(), Term: t, Ty: p.Type()})
+		e.inputs = append(e.inputs, modelVar{Name: p.Name(), Term: t, Ty: p.Type(), NDecl: len(e.decls)})
 	}
 	fr.entryMem = map[string]Term{}
 	e.initMem = fr.entryMem
@@ -273,6 +273,9 @@ func verifyFuncMode(w *World, ss *SpecSet, fn *ssa.Function, sweep, finder bool)
 		rty := fn.Signature.Results().At(j).Type()
 		env.results = append(env.results, e.mkT(e.define("result", e.so.of(rty), t), rty))
 		e.resultTerms = append(e.resultTerms, modelVar{Name: fmt.Sprintf("r%d", j), Term: env.results[j].t, Ty: rty})
+	}
+	if fr.retLocs != nil && !fr.retLocConflict {
+		env.resLoc = fr.retLocs
 	}
 	for i, en := range ct.Ensures {
 		g, err := e.specBool(env, en.E)
